@@ -198,7 +198,7 @@ CHECKS = {
         "in exact complex-rational arithmetic, whose own run is checked to conserve the trace exactly and stay exactly Hermitian; RWA "
         "conversions compared on the run's own phases. numpy.exp values (dephasing multipliers, phases) are oracles. Field-driven "
         "propagation (raises NOT IMPLEMENTED upstream) and inhomogeneous terms are not modelled.",
-   design="7/C02", technique="Coq proof (Taylor loop abstracted over generator sequences: invariants and relational lemmas by induction; ring/field identities) + in-Coq differential correspondence in exact rational arithmetic"),
+   design="7/C02", technique="Coq proof (Taylor loop abstracted over generator sequences: invariants and relational lemmas by induction; ring/field identities) + propagator kernels _COM/_TTI/_OTI regenerated from the source by a translator with machine-checked equivalence lemmas + in-Coq differential correspondence in exact rational arithmetic"),
  "C07": dict(
    text="Proved in Coq over any commutative *-ring, every dimension and number of bath components: the tensor built by "
         "_convert_operators_2_tensor, applied by tensordot, acts on EVERY operator exactly as the operator form K rho L^+ + L rho K^T - "
@@ -215,7 +215,7 @@ CHECKS = {
         "holding integer operators in both forms compared with = inside Coq; propagation in both forms against the exact-rational "
         "propagator model (1e-10); float monitors on random aggregates: both forms inside/outside basis contexts (apply and propagate, "
         "time independent and time dependent, with and without cut-off), R_TD(0) = 0 exactly, R_TD(last) = R_TI within 1e-12 relative.",
-   design="7/C07", technique="Coq proof (index-level ring algebra, relational induction over the Taylor loop) + exact in-Coq correspondence on integer operators"),
+   design="7/C07", technique="Coq proof (index-level ring algebra, relational induction over the Taylor loop) + propagator kernels regenerated from the source by a translator with machine-checked equivalence lemmas + exact in-Coq correspondence on integer operators"),
  "C08": dict(
    text="Proved in Coq over any commutative *-ring, every dimension, grid length, dense-step setting >= 1, order and number of "
         "incremental steps: data[i] is the i-th tensordot power of Udt - the identity at time zero - and powers compose, "
